@@ -381,7 +381,7 @@ fn eval_axis_node_test(
             expr::AxisName::DescendantOrSelf => descendant_and_self(node),
             expr::AxisName::Following => following(node),
             expr::AxisName::FollowingSibling => following_sibling(node),
-            expr::AxisName::Namespace => namespace(node),
+            expr::AxisName::Namespace => namespace(node)?,
             expr::AxisName::Parent => node.parent_node().into_iter().collect(),
             expr::AxisName::Preceding => preceding(node),
             expr::AxisName::PrecedingSibling => preceding_sibling(node),
@@ -586,16 +586,16 @@ fn following_sibling(node: dom::XmlNode) -> Vec<dom::XmlNode> {
     nodes
 }
 
-fn namespace(node: dom::XmlNode) -> Vec<dom::XmlNode> {
+fn namespace(node: dom::XmlNode) -> error::Result<Vec<dom::XmlNode>> {
     let mut nodes = vec![];
 
     if let dom::XmlNode::Element(element) = node {
-        for ns in element.in_scope_namespace().unwrap() {
+        for ns in element.in_scope_namespace()? {
             nodes.push(ns.as_node());
         }
     }
 
-    nodes
+    Ok(nodes)
 }
 
 fn preceding(node: dom::XmlNode) -> Vec<dom::XmlNode> {
